@@ -33,6 +33,10 @@ META = {
                 text="each validator and refusal branch returns exactly for valid arguments and raises exactly for invalid ones (pairs 'returns => valid' and 'raises => invalid'), for all values; reconstruction returns only when every mode label of the scores names a model mode. Every public entry point of every model class under the property's single-fault mutations is evaluated on real models (bounded).",
                 note="assumed: xarray .sel KeyError semantics and inner-join alignment of xr.dot as modelled; finite type cases enumerated; Stacker/Sanitizer/Scaler checks on transform data are bounded here; known findings: POP ignores n_modes/solver, SparsePCA(n_modes=0); bounded: 155 (quick) / ~330 (thorough) fault injections",
                 ref="5/C17"),
+    "C13": dict(level="other", technique="contract-based deductive verification of the attribute codec (xeofs.utils.io) by symbolic tracing over arbitrary strings + z3 string theory; whole-model serialisation round trips are bounded run-time evaluations (labelled)",
+                text="contracts: part proved, part bounded. Proved for all strings / all values of the sanitised types: _should_desanitize is total and true exactly for the documented patterns, _desanitize_attrs_nc never raises and keeps or decodes each attribute. Bounded: type(m).deserialize(codec(m.serialize())) equals m (params, components, scores, transform, inverse_transform, predict) for 15 model classes x structures (DataArray, NaN masks, Dataset, lists incl. 11 items, MultiIndex) x user attribute dictionaries x three codecs x placeholders x before/after compute/transform, plus serialising a model after a rotator was fitted on it.",
+                note="assumed: literal_eval contract; DataTree/xarray internals only exercised (not modelled); no netCDF/zarr engine installed so file I/O itself is out of reach; bounded: 73 (quick) / ~720 (thorough) round trips",
+                ref="5/C13"),
 }
 NA_REASON = "no check registered yet in this snapshot of /verif (build in progress; see DESIGN.md section 5 for the plan)"
 
